@@ -1046,7 +1046,9 @@ class BasicVisitor(NodeVisitor):
             circle_statement.expr_x,
             circle_statement.expr_y,
             circle_statement.expr_r,
-            expr_color=None if expr_color == "" else expr_color,
+            expr_color=expr_color
+            if isinstance(expr_color, AbstractBasicConstruct)
+            else None,
         )
 
     def visit_hellipse_statement(self, _, visited_children) -> AbstractBasicStatement:
